@@ -2,7 +2,7 @@ import Chewing.Proofs.TrieBufObs
 /-!
 Prefix (`FuzzyPartialPrefix`) lookup of a `TrieBuf` against the map it denotes.
 
-Since fix 097161a (F36) the code answers a prefix lookup from the merged view `entries_iter()` — persisted
+Since fix c3d9fb2 (F36) the code answers a prefix lookup from the merged view `entries_iter()` — persisted
 entries without a pending entry of the same key, then the pending entries, minus tombstones, every filter
 keyed by the ENTRY's own key — restricted to the keys that match the query syllable by syllable.  The
 answer is therefore the map's in **every** state: `fuzzy_of_entries` derives the prefix-lookup
